@@ -41,7 +41,8 @@ def expr_stream(rng: random.Random, tier: str, n_random: int, depth_q: int = 4, 
     if rng.random() < 0.3 and all(len(n) == 1 for n in names):
         # names of several characters: CPython shares one object for every one-character string, so only
         # longer names can tell `==` from `is` on names
-        names = tuple({"x": "xx", "y": "y_1", "z": "zeta", "u": "uu", "v": "v2", "w": "ww", "t": "tau"}.get(n, n + n) for n in names)
+        first = rng.choice(["xx", "whatever", "self", "point", "variable"])      # incl. the library's own placeholder and parameter names
+        names = tuple({"x": first, "y": "y_1", "z": "zeta", "u": "uu", "v": "v2", "w": "ww", "t": "tau"}.get(n, n + n) for n in names)
     if rules:
         for rnd in range(rule_rounds if tier == "quick" else 3 * rule_rounds):
             g = gen.Gen(rng, names=names[: 1 + rnd % len(names)], kinds=kinds)
@@ -59,10 +60,13 @@ def expr_stream(rng: random.Random, tier: str, n_random: int, depth_q: int = 4, 
         out += gen.rich_shapes(rng, max(40, n_random // 3))
         out += gen.unary_chains(rng, max(30, n_random // 4))
         out += gen.scaled(rng, max(24, n_random // 8))
+        out += gen.cancelling_products(rng, max(40, n_random // 4))
         from .core import changed_classes
         focus = [k for k in changed_classes() if k in kinds]
         if focus:       # the classes whose source changed: shapes rooted at them, bare and inside random parents
             out += gen.unary_chains(rng, 1200 if tier == "quick" else 6000, top=focus)
+            if "Multiply" in focus or "Add" in focus:
+                out += gen.cancelling_products(rng, 400 if tier == "quick" else 3000)
             g = gen.Gen(rng, names=names, kinds=kinds)
             for origin, e in gen.rich_shapes(rng, max(60, n_random // 2), classes=focus):
                 out.append(("changed:" + origin, e))
@@ -127,6 +131,12 @@ def near_special(rng: random.Random, count: int) -> list[tuple]:
             v = float(base) ** m * (1 + d)
             e = X.Logarithm(x) if b is None else X.Logarithm(x, base=b)
             pt = {"x": v}
+        elif kind == 4 and rng.random() < 0.4:
+            # a base a hair away from 1 or from e (a growth factor per period; an "e" typed with ten digits)
+            b = rng.choice([1.0, math.e]) * (1 + rng.choice([1e-10, -1e-10, 3e-12, -2e-13, 1e-8]))
+            f = rng.choice([lambda u: X.Exponential(u, base=b), lambda u: X.Logarithm(u, base=b),
+                            lambda u: X.Multiply(y, X.Exponential(X.Multiply(X.Constant(2.0), u), base=b))])
+            e, pt = f(x), {"x": rng.choice([1.0, 3.0, 0.5, 3e11 if b < 1.1 else 2.0]), "y": 1.5}
         elif kind == 4:
             b = rng.choice([2, 10, 3, 0.5, None])
             m = rng.choice([0, 1, 2, -1, 10])
